@@ -124,6 +124,17 @@ CLAIMED = {
             "program) -- C06's schema-truthfulness obligations are the in-family substitute",
             "contract-based deductive verification of occurrence lemmas (z3) + labelled bounded differential round trips",
             "DESIGN.md section 4 C01"),
+    'C02': ("Proved (symbolic, every integer): MessagePack's integer split (the integer itself iff it fits the native "
+            "range, else decimal text; the decoder inverts both) and the number pass-through handlers of JSON/YAML. "
+            "Bounded (labelled): requests built by an independent reference encoder for generated signatures and boundary "
+            "values (2**70, -2**63, 30-digit decimals, non-BMP text, empty containers) through the real pipeline of "
+            "JSON/YAML/MessagePack x ignore_wrappers x complex_as {dict, list} x validator {None, soft} (MessagePack with "
+            "str and bytes keys); the function is invoked once with equal values and the response read by an independent "
+            "reference decoder denotes the returned values.",
+            "json/yaml/msgpack wire (de)serialisers are lossless on their own value model; positional form for fully "
+            "populated objects only (as the property states)",
+            "contract-based deductive verification of integer handlers (z3) + labelled bounded differential round trips",
+            "DESIGN.md section 4 C02"),
 }
 NOT_YET = {}
 for i in range(1, 19):
